@@ -20,9 +20,9 @@ MANIFEST = {
             "check_timing — whose tolerance, comparison operators, raster per event type, checked-field lists, dead-time "
             "expressions and calc_duration end-time expressions are re-read from the source on every run — returns the empty "
             "report iff the declarative predicate TimingValid (written from the property text) holds, and an entry "
-            "(block, event, field, kind) is reported iff that clause is violated (soundness + completeness, no duplicates); "
+            "(block, event, field, kind) is reported iff that clause is violated, exactly once (soundness, completeness, NoDup); "
             "div_check accepts t iff t lies within 1e-6 raster of an integer multiple; ok implies the write-time assertion "
-            "when the stored duration covers the content (sub-eps counterexample stated as _refuted). The extracted model is "
+            "when the stored duration covers the content (sub-eps counterexample stated as _refuted, reproduced on the implementation as known finding C10/ok-but-write-raises; the theorems are parameterised by which duration the source tests against the block raster, so they also hold, unconditionally, for the repaired source). The extracted model is "
             "run against Sequence.check_timing() on ~1300 (quick) random valid and single/multi-fault sequences over 5 "
             "raster families; an independent exact-Fraction oracle must equal the reported multiset; ok sequences are "
             "written under warnings capture.",
